@@ -221,6 +221,82 @@ def taikoHitLoop {S} (sk : Skills S) (bases : List Bool) :
       let g' := { g with iterPos := g.iterPos + 1, skills := sk.process g.skills g.iterPos }
       if isHit then (true, g') else taikoHitLoop sk bases fuel g'
 
+/-- `FirstTwoCombos::n_hits` (added by the fix `fix: taiko gradual difficulty counts the first two
+objects like every other hit`): the number of hits among the first two objects, which have no
+difficulty object. -/
+def FirstTwoCombos.nHits : FirstTwoCombos → Nat
+  | .none => 0
+  | .onlyFirst => 1
+  | .onlySecond => 1
+  | .both => 2
+
+/-- `Iterator::next` (as fixed):
+```text
+if self.idx >= self.first_combos.n_hits() {
+    loop { let curr = self.diff_objects_iter.next()?; …process…;
+           if curr.is_hit() { self.attrs.max_combo += 1; break; } }
+} else {
+    self.attrs.max_combo += 1;          // a hit among the first two objects: nothing to process
+}
+self.idx += 1;
+``` -/
+def taikoNext {S} (sk : Skills S) (objs : List Bool) (g : TaikoGrad S) :
+    Option (Nat × S) × TaikoGrad S :=
+  let bases := objs.drop 2
+  if g.idx ≥ (taikoFirstCombos objs).nHits then
+    match taikoHitLoop sk bases (bases.length + 1) g with
+    | (false, g') => (none, g')
+    | (true, g') =>
+      let g'' := { g' with maxCombo := g'.maxCombo + 1, idx := g'.idx + 1 }
+      (some (g''.maxCombo, g''.skills), g'')
+  else
+    let g' := { g with maxCombo := g.maxCombo + 1, idx := g.idx + 1 }
+    (some (g'.maxCombo, g'.skills), g')
+
+/-- `len`: `self.total_hits - self.idx`, checked. -/
+def taikoLen {S} (objs : List Bool) (g : TaikoGrad S) : Option Nat :=
+  csub (objs.filter id).length g.idx
+
+/-- `for _ in 0..take { loop { … self.idx += 1; break } }` of `nth`; `none` when `?` fired. -/
+def taikoNthLoop {S} (sk : Skills S) (bases : List Bool) : Nat → TaikoGrad S → Bool × TaikoGrad S
+  | 0, g => (true, g)
+  | k + 1, g =>
+    match taikoHitLoop sk bases (bases.length + 1) g with
+    | (false, g') => (false, g')
+    | (true, g') => taikoNthLoop sk bases k { g' with maxCombo := g'.maxCombo + 1, idx := g'.idx + 1 }
+
+/-- `Iterator::nth` (as fixed); `len()` is checked — `.panic` = `total_hits - idx` would underflow
+(it never does: `C15.taiko_never_panics`).
+```text
+let mut take = cmp::min(n, self.len().saturating_sub(1));
+while take > 0 && self.idx < self.first_combos.n_hits() {
+    take -= 1; self.idx += 1; self.attrs.max_combo += 1;
+}
+for _ in 0..take { loop { … } }
+self.next()
+``` -/
+def taikoNth {S} (sk : Skills S) (objs : List Bool) (g : TaikoGrad S) (n : Nat) :
+    Res (Nat × S) × TaikoGrad S :=
+  match taikoLen objs g with
+  | none => (.panic, g)
+  | some len =>
+    let take := min n (len - 1)
+    let skip := min take ((taikoFirstCombos objs).nHits - g.idx)
+    let g1 := { g with idx := g.idx + skip, maxCombo := g.maxCombo + skip }
+    match taikoNthLoop sk (objs.drop 2) (take - skip) g1 with
+    | (false, g2) => (.none, g2)
+    | (true, g2) =>
+      match taikoNext sk objs g2 with
+      | (some v, g3) => (.some v, g3)
+      | (none, g3) => (.none, g3)
+
+/-! ### The machine before the fix (kept only for the counter-witnesses that document the defect)
+
+`TaikoGradualDifficulty::{next, nth}` as they were before `fix: taiko gradual difficulty counts the
+first two objects like every other hit`: `idx < 2` was special-cased through `FirstTwoCombos` match
+arms that are only right when the first two objects are both hits and a third object exists. -/
+namespace Old
+
 def taikoNext {S} (sk : Skills S) (objs : List Bool) (g : TaikoGrad S) :
     Option (Nat × S) × TaikoGrad S :=
   let bases := objs.drop 2
@@ -241,18 +317,6 @@ def taikoNext {S} (sk : Skills S) (objs : List Bool) (g : TaikoGrad S) :
       | _, _ => g.maxCombo
     let g' := { g with maxCombo := mc, idx := g.idx + 1 }
     (some (g'.maxCombo, g'.skills), g')
-
-/-- `len`: `self.total_hits - self.idx`, checked. -/
-def taikoLen {S} (objs : List Bool) (g : TaikoGrad S) : Option Nat :=
-  csub (objs.filter id).length g.idx
-
-/-- `for _ in 0..take { loop { … self.idx += 1; break } }` of `nth`; `none` when `?` fired. -/
-def taikoNthLoop {S} (sk : Skills S) (bases : List Bool) : Nat → TaikoGrad S → Bool × TaikoGrad S
-  | 0, g => (true, g)
-  | k + 1, g =>
-    match taikoHitLoop sk bases (bases.length + 1) g with
-    | (false, g') => (false, g')
-    | (true, g') => taikoNthLoop sk bases k { g' with maxCombo := g'.maxCombo + 1, idx := g'.idx + 1 }
 
 /-- `usize` subtraction as compiled without overflow checks (release profile): wraps. -/
 def wsub (a b : Nat) : Nat := if b ≤ a then a - b else 2 ^ 64 - (b - a)
@@ -289,6 +353,8 @@ def taikoNth {S} (sk : Skills S) (objs : List Bool) (g : TaikoGrad S) (n : Nat)
       match taikoNext sk objs g2 with
       | (some v, g3) => (.some v, g3)
       | (none, g3) => (.none, g3)
+
+end Old
 
 /-! ## osu!catch
 
@@ -548,6 +614,12 @@ def osuMachine {S} (sk : Skills S) (objs : List OsuObj) : Machine (OsuGrad S) (O
 def taikoMachine {S} (sk : Skills S) (objs : List Bool) : Machine (TaikoGrad S) (Nat × S) where
   next g := let r := taikoNext sk objs g; (optToRes r.1, r.2)
   nth g k := taikoNth sk objs g k
+  len g := taikoLen objs g
+
+/-- The machine before the fix (release profile: `len()` wraps inside `nth`). -/
+def Old.taikoMachine {S} (sk : Skills S) (objs : List Bool) : Machine (TaikoGrad S) (Nat × S) where
+  next g := let r := Old.taikoNext sk objs g; (optToRes r.1, r.2)
+  nth g k := Old.taikoNth sk objs g k
   len g := taikoLen objs g
 
 def catchMachine {S} (sk : Skills S) (recs : List CatchRec) (dl : Nat) :
